@@ -56,6 +56,9 @@ func (c *c05) Cases(tier string, seed int64) []core.Case {
 	for i := 0; i < map[string]int{"quick": 6, "thorough": 60}[tier]; i++ {
 		cs = append(cs, core.MkCase(fmt.Sprintf("obstacle-%d", i), c05Params{r.Int63(), "obstacle"}))
 		cs = append(cs, core.MkCase(fmt.Sprintf("unreadable-input-%d", i), c05Params{r.Int63(), "unreadable-input"}))
+		if i < 3 || tier == "thorough" && i < 20 {
+			cs = append(cs, core.MkCase(fmt.Sprintf("big-slice-%d", i), c05Params{r.Int63(), "big-slice"}))
+		}
 	}
 	for i := 0; i < map[string]int{"quick": 3, "thorough": 30}[tier]; i++ {
 		cs = append(cs, core.MkCase(fmt.Sprintf("many-slices-and-blocks-%d", i), c05Params{r.Int63(), "many-both"}))
@@ -116,6 +119,18 @@ func (c *c05) Run(cs core.Case) core.Result {
 		set = genP2Set(rng, 6, []string{"random", "random", "dupslices"}, false)
 		for len(set.Files) < 2 {
 			set.Files = append(set.Files, scen.File{Name: fmt.Sprintf("second-%d.bin", len(set.Files)), Data: scen.GenData(rng, "random", 1+rng.Intn(3*set.SliceSize), set.SliceSize)})
+		}
+	case "big-slice":
+		// packets whose bodies exceed 64 KiB (recovery packets of large slices,
+		// checksum packets of files with thousands of slices)
+		if rng.Intn(2) == 0 {
+			slice := []int{65536, 65540, 70000, 131072}[rng.Intn(4)]
+			set = scen.Set{SliceSize: slice, Blocks: 1 + rng.Intn(3), Content: "random"}
+			set.Files = append(set.Files, scen.File{Name: "large-slices.bin", Data: scen.GenData(rng, "random", slice+1+rng.Intn(2*slice), slice)})
+			set.Files = append(set.Files, scen.File{Name: "small.bin", Data: scen.GenData(rng, "random", 1+rng.Intn(5000), slice)})
+		} else {
+			set = scen.Set{SliceSize: 4, Blocks: 1 + rng.Intn(2), Content: "random"}
+			set.Files = append(set.Files, scen.File{Name: "many-slices.bin", Data: scen.GenData(rng, "random", 4*(3300+rng.Intn(900))-rng.Intn(4), 4)})
 		}
 	case "unreadable-input":
 		set = genP2Set(rng, 4, []string{"random"}, false)
